@@ -696,9 +696,16 @@ theorem srv_serveTcp_eq (a : Bool) (r : ServerResolver) (e : Nat) (rec : List UI
   | ok b => simp only; cases handleRawMessage a r b <;> rfl
   | error id => cases id <;> rfl
 
+/-- a complete read hands over exactly the announced prefix of what the connection delivered -/
 theorem srv_tcpRead_full {e : Nat} {rec : List UInt8} (h : e ≤ rec.length) :
-    tcpRead e rec = .ok rec := by
+    tcpRead e rec = .ok (rec.take e) := by
   unfold tcpRead; rw [if_pos h]
+
+/-- a complete read: the TCP reply path handles the first `e` octets -/
+theorem srv_serveTcp_full (a : Bool) (r : ServerResolver) {e : Nat} {rec : List UInt8}
+    (h : e ≤ rec.length) :
+    serveTcp a r e rec = srvSendTcp (handleRawMessage a r (rec.take e)) := by
+  rw [srv_serveTcp_eq, srv_tcpRead_full h]
 
 theorem srv_tcpRead_short {e : Nat} {rec : List UInt8} (h : rec.length < e) :
     tcpRead e rec = .error (if h2 : 2 ≤ rec.length then
